@@ -126,6 +126,7 @@ def search(res, tier, seed, deep=False):
             rs = np.random.RandomState(r.randint(0, 10 ** 6))
             dry = r.choice([0.05, 0.3, 0.6, 0.9]); shape = r.choice([0.5, 1.0, 3.0]); scale = r.choice([0.2, 2.0, 20.0])
             N = r.choice([60, 400])
+            if i % 10 == 9: N = r.choice([25000, 45000])      # a long record now and then (a century of daily values)
             data = np.where(rs.rand(N) < dry, 0.0, rs.gamma(shape, scale, N) + 1e-3)
             if (data > 0).sum() < 10 or (data == 0).sum() < 1: continue
             wet = np.sort(data[data > 0]); inp = dict(dry=dry, shape=shape, scale=scale, n=N, seed=seed, i=i)
@@ -169,6 +170,13 @@ def search(res, tier, seed, deep=False):
             okw = (c[data > 0] > 1e-12) & (c[data > 0] < 1 - 1e-8)
             if np.any(back[data == 0] != 0) or np.any(np.abs(back[data > 0][okw] - data[data > 0][okw]) > 1e-5 * data[data > 0][okw]):
                 report("ignorezeros-roundtrip", inp, None, "ignore-zeros model: dry must stay 0 and wet values round-trip")
+            # single-precision records: the model works in double precision whatever the storage type
+            d32 = data.astype(np.float32); fit32 = iz.fit(d32); c32 = np.asarray(iz.cdf(d32, *fit32)); b32 = np.asarray(iz.ppf(c32, *fit32), dtype=float)
+            res.case(("ignore-zeros-float32", dry))
+            w32 = d32 > 0
+            ok32 = w32 & (c32 > 1e-12) & (c32 < 1 - 1e-8)
+            if np.any(c32[w32] > 1) or not np.all(np.isfinite(b32[w32])) or np.any(np.abs(b32[ok32] - d32[ok32].astype(float)) > 1e-5 * d32[ok32].astype(float)):
+                report("ignorezeros-roundtrip:float32", inp, dict(dtype_of_cdf=str(c32.dtype), infinite=int(np.sum(~np.isfinite(b32[w32])))), "ignore-zeros model on single-precision data: wet values must round-trip (finite, within 1e-5 relative)")
             thr = float(np.quantile(wet, 0.2))
             cmod = gen_PrecipitationGammaLeftCensoredModel(censoring_threshold=thr, censor_in_ppf=True)
             gfit = (shape, 0, scale)
